@@ -58,17 +58,17 @@ type Call struct {
 // Model is a BlobAccess over a fixed universe with per-object presence bits
 // (possibly symbolic) and per-operation failure injection.
 type Model struct {
-	Name     string
-	Objects  []Object // universe, matched by digest key WITHOUT instance name
-	Present  []bool
+	Name                              string
+	Objects                           []Object // universe, matched by digest key WITHOUT instance name
+	Present                           []bool
 	FailGet, FailPut, FailFindMissing bool // when true the operation fails with FailCode
-	FailCode codes.Code
+	FailCode                          codes.Code
 	// FailGetCode, when non-zero, is the code of an injected Get failure
 	// (e.g. NotFound for a replica whose FindMissing and Get disagree).
 	FailGetCode codes.Code
 	Calls       []Call
 	mu          sync.Mutex // guards Calls and the counters (replicas are used from several goroutines)
-	PutOK    int // uploads that completed with matching content
+	PutOK       int        // uploads that completed with matching content
 	// ConsumedBad counts uploads whose buffer failed or mismatched (nothing stored).
 	ConsumedBad int
 	// BufferKind selects the kind of buffer Get returns for a present object:
